@@ -585,13 +585,15 @@ func C10(x *Ctx, r *core.Result) {
 	}
 	r.CheckFloor(g, 12)
 	r.NotDecided = append(r.NotDecided,
-		"absence of panics in hand-written arithmetic outside the scanner domain: internal/fp/decimal.go indexing (the compiler leaves its bounds checks unproven), growBytesSliceCapacity's make size, StdLibCompatible* recursion depth",
+		"index safety of internal/fp/decimal.go from first principles: its indexing is discharged by being the same program as strconv's (R04f), whose safety is trusted",
+		"negative make sizes and nil map writes (no such construct is reachable; not a rule), StdLibCompatible* recursion depth on a caller-built tree",
 		"termination of the shift loops in internal/fp (decimal.Shift / floatBits)",
-		"getu4 / unescapeUnicodeChar slicing is decided under C06 (R06d/e)")
+		"integer wrap-around inside the local linear arguments of R10i (every term is a length or a small constant away from one)")
 	ri := r.Rule("R10i", "accounting: every index / slice expression in a library function reachable from the API is discharged by the machine rules, by the scanner interpreter (that very expression was judged), by the compiler's bounds-check elimination (absent from its list of unproven checks) or by a local linear argument — none lies outside all analyses")
 	x.boundsAccounting(r, ri)
 	r.CheckFloor(ri, 100)
-	r.Explain = "each clause is a for-all-paths property of the extracted transition systems, of SSA dominance, or of a three-variable linear system; what lies outside the scanner domain is listed as not decided"
+	r.Trusted = append(r.Trusted, "the Go compiler's bounds-check elimination (an index expression absent from -d=ssa/check_bce's list is in range)", "package strconv of the GOROOT in use does not index out of range", "lengths and capacities are far below the int range (no wrap-around in len+4 and the like)", "utf8.EncodeRune in [1,4], utf8.RuneLen in [-1,4] (>= 3 on utf16.DecodeRune's result), utf8.DecodeRune* size in [0,4] and <= len, bytes.IndexByte in [-1, len)")
+	r.Explain = "each clause is a for-all-paths property of the extracted transition systems, of SSA dominance, or of a small linear system; R10i accounts for every index/slice expression reachable from the API; what is trusted or not decided is listed"
 }
 
 func init() { Registry["C10"] = Prop{"other", C10} }
